@@ -155,6 +155,7 @@ type Engine struct {
 	sumCache  map[*ssa.Function]Value
 	inSummary bool
 	memo      map[string][]Value
+	blobs     []blobRec
 	unwindPrune bool
 	restarts  int
 	pendingCuts map[string]cutSpec
@@ -810,6 +811,7 @@ func (e *Engine) resetPath() {
 	e.hostState = map[string]any{}
 	e.unknownBranch = false
 	e.memo = map[string][]Value{}
+	e.blobs = nil
 	e.unwindPrune = false
 	e.summaries = map[string]Value{}
 	e.sumCache = map[*ssa.Function]Value{}
